@@ -124,6 +124,8 @@ pub fn c10(out: &mut Out, ex: &mut Exec, seed: u64, thorough: bool) {
         let kb: Vec<u8> = if kbint { vec![] } else { (0..6).map(|_| 0x61 + rng.below(26) as u8).collect() };
         let mk = |with_int: bool, rng: &mut Rng, tag: &str| -> Vec<String> {
             let mut v = base_setup(&format!("{id}{tag}"), false, id % 2 == 0, &prog, &kb);
+            // every fifth case runs with ignore_privilege: entry and RTI must still switch stacks by the PSR alone
+            if id % 5 == 4 { v[1] = format!("sim new 0 0 {} 1 0000", (id % 2 == 0) as u8); }
             v.push(h.rawmem());
             v.push(format!("sim rawmem 0181 {:04x}/ffff {:04x}/ffff {:04x}/ffff", h_cnt, h_rti, h_cnt));
             v.push(format!("sim rawmem 0180 {:04x}/ffff", h_kb));
@@ -162,7 +164,7 @@ pub fn c10(out: &mut Out, ex: &mut Exec, seed: u64, thorough: bool) {
         if seen.insert(crate::simx::fnv(lb.iter().flat_map(|l| l.bytes().map(|b| b as u64)))) && lb.iter().any(|l| l.contains("sim intr") || l.contains("sim timer")) { out.nontrivial += 1; }
         if out.samples.len() < 2 { let mut s = Json::obj(); s.set("setup", Json::Arr(lb.iter().take(14).map(|x| Json::s(x.chars().take(160).collect::<String>())).collect())); s.set("final", Json::s(rb[rb.len() - 2].clone())); out.sample(s); }
     }
-    out.rule = "generated user programs (loops, calls, traps with I/O) run with 1-2 scripted interrupt devices raising vectors x81-x83 at random instruction boundaries with random priorities 1-7 (nesting, competition), optional seeded timer, optional keyboard interrupts (KBSR[14]) with a handler that reads KBDR; handlers: bare RTI, save/restore R0-R1 + supervisor counter, keyboard reader. Every single step of the first 10-50 boundaries and the final state compared with the model; oracle on the implementation: final PC, PSR (CC), R0-R7, display output and user memory equal those of the uninterrupted run. non-trivial = case has an interrupt source".into();
+    out.rule = "generated user programs (loops, calls, traps with I/O; every fifth case with ignore_privilege) run with 1-2 scripted interrupt devices raising vectors x81-x83 at random instruction boundaries with random priorities 1-7 (nesting, competition), optional seeded timer, optional keyboard interrupts (KBSR[14]) with a handler that reads KBDR; handlers: bare RTI, save/restore R0-R1 + supervisor counter, keyboard reader. Every single step of the first 10-50 boundaries and the final state compared with the model; oracle on the implementation: final PC, PSR (CC), R0-R7, display output and user memory equal those of the uninterrupted run. non-trivial = case has an interrupt source".into();
 }
 
 /// C11 / C12: OS trap contracts, real vs virtual.
